@@ -8,6 +8,7 @@ mod c06;
 mod c07;
 mod c10;
 mod c13;
+mod c16;
 mod c17;
 mod c18;
 mod jsonref;
@@ -29,6 +30,7 @@ fn main() {
         "c07" => c07::main(&args),
         "c10" => c10::main(&args),
         "c13" => c13::main(&args),
+        "c16" => c16::main(&args),
         "c17" => c17::main(&args),
         "c18" => c18::main(&args),
         other => {
